@@ -29,6 +29,7 @@ type Config struct {
 	Customs     bool   // emit custom sections
 	SpecialHost bool   // import env.grow (i32)->i32 and env.callback (i32)->i32
 	HostModule  string // module name of the host imports ("" = "env")
+	Sink        bool   // fold values that statements would drop into an exported global (observability)
 	CallRich    bool   // bias statements and expressions towards calls (C20)
 	Enter       bool   // weave a call to the host import enter(i32 funcIndex) into every function entry (ground truth for C20)
 	WASI        bool   // import a few wasi_snapshot_preview1 functions and use them
@@ -37,7 +38,7 @@ type Config struct {
 // DefaultConfig is a medium-size configuration with every feature.
 func DefaultConfig() Config {
 	return Config{Features: FeatAll, MaxFuncs: 6, MaxStmts: 6, MaxDepth: 5, HostImports: 3, CanonNaN: true,
-		Fuel: true, FuelInit: 4000, AllowStart: true, V128Sigs: true, RefSigs: true, SpecialHost: true}
+		Fuel: true, FuelInit: 4000, AllowStart: true, V128Sigs: true, RefSigs: true, SpecialHost: true, Sink: true}
 }
 
 type insRec struct {
@@ -62,7 +63,8 @@ type fctx struct {
 	ins     []insRec
 	ind     int8
 	scratch map[byte]uint32
-	budget  int // remaining instruction budget
+	private []uint32 // further locals reserved for generated sequences (never read or written by other code)
+	budget  int      // remaining instruction budget
 }
 
 type gen struct {
@@ -83,6 +85,7 @@ type gen struct {
 	funcTable int // index of a funcref table or -1
 	fuelIdx   uint32
 	wasiFdWr  int
+	sinkIdx   int // global index of the sink or -1
 	nimp      int // number of imported functions
 	enterIdx  int // function index of the "enter" import or -1; never called by generated code
 }
@@ -117,7 +120,7 @@ func (g *gen) chance(pct int, l string) bool { return g.intn(100, l) >= 100-pct 
 // Generate draws a module.
 func Generate(t *rapid.T, cfg Config) *Module {
 	g := &gen{t: t, cfg: cfg, m: &wasmenc.Module{}, out: &Module{MemMax: -1, Start: -1, Features: cfg.Features, Stats: map[string]int{}},
-		ops: map[byte][]*Op{}, passiveE: map[byte][]int{}, funcTable: -1, wasiFdWr: -1, enterIdx: -1}
+		ops: map[byte][]*Op{}, passiveE: map[byte][]int{}, funcTable: -1, wasiFdWr: -1, enterIdx: -1, sinkIdx: -1}
 	for i := range OpTable {
 		op := &OpTable[i]
 		if cfg.Features&op.Feat != op.Feat {
@@ -244,6 +247,12 @@ func (g *gen) module() {
 		m.Globals = append(m.Globals, wasmenc.Global{Type: I32, Mut: true, Init: wasmenc.NewB().I32Const(cfg.FuelInit).Bytes()})
 		m.Exports = append(m.Exports, wasmenc.Export{Name: "fuel", Kind: wasmenc.KGlobal, Idx: g.fuelIdx})
 		g.out.FuelGlob = "fuel"
+	}
+	if cfg.Sink {
+		g.sinkIdx = len(m.Globals)
+		m.Globals = append(m.Globals, wasmenc.Global{Type: I64, Mut: true, Init: wasmenc.NewB().I64Const(0).Bytes()})
+		m.Exports = append(m.Exports, wasmenc.Export{Name: "sink", Kind: wasmenc.KGlobal, Idx: uint32(g.sinkIdx)})
+		g.out.Sink = &GlobalInfo{Index: uint32(g.sinkIdx), Type: I64, Mut: true, Export: "sink"}
 	}
 	ng := g.rng(0, 5, "nglobals")
 	for i := 0; i < ng; i++ {
@@ -697,6 +706,54 @@ func (g *gen) tailCall() bool {
 
 func (g *gen) stat(k string) { g.out.Stats[k]++ }
 
+// consume removes the value of type ty from the top of the stack: it is folded into the sink
+// global when there is one (so that values a program discards stay observable), else dropped.
+func (g *gen) consume(ty byte) {
+	if g.sinkIdx < 0 {
+		g.op1("drop", 0x1a)
+		return
+	}
+	fold := func() {
+		g.globalGet(uint32(g.sinkIdx))
+		g.i64const(7)
+		g.op1("i64.rotl", 0x89)
+		g.op1("i64.xor", 0x85)
+		g.globalSet(uint32(g.sinkIdx))
+	}
+	switch ty {
+	case I32:
+		g.op1("i64.extend_i32_u", 0xad)
+		fold()
+	case I64:
+		fold()
+	case F32:
+		g.op1("i32.reinterpret_f32", 0xbc)
+		g.op1("i64.extend_i32_u", 0xad)
+		fold()
+	case F64:
+		g.op1("i64.reinterpret_f64", 0xbd)
+		fold()
+	case V128:
+		t := g.scratch(V128)
+		g.localSet(t)
+		g.localGet(t)
+		g.op1("i64x2.extract_lane 0", 0xfd, 0x1d, 0)
+		fold()
+		g.localGet(t)
+		g.op1("i64x2.extract_lane 1", 0xfd, 0x1d, 1)
+		fold()
+	default:
+		g.op1("drop", 0x1a)
+	}
+}
+
+// consumeAll consumes the values of the given types (last on top).
+func (g *gen) consumeAll(ts []byte) {
+	for i := len(ts) - 1; i >= 0; i-- {
+		g.consume(ts[i])
+	}
+}
+
 // anyFn draws a function index that generated code may reference (never the enter hook).
 func (g *gen) anyFn(total int, l string) uint32 {
 	for {
@@ -732,7 +789,19 @@ func (g *gen) isScratch(i uint32) bool {
 			return true
 		}
 	}
+	for _, s := range g.f.private {
+		if s == i {
+			return true
+		}
+	}
 	return false
+}
+
+// privateLocal allocates a local that only the caller's own sequence uses.
+func (g *gen) privateLocal(ty byte) uint32 {
+	i := g.newLocal(ty)
+	g.f.private = append(g.f.private, i)
+	return i
 }
 
 // localsOf lists the locals of a type, except scratch locals (they may hold NaNs that have
@@ -812,17 +881,13 @@ func (g *gen) stmt() (terminated bool) {
 			fn = uint32(g.nimp + g.intn(len(g.sigs)-g.nimp, "callwasmfn"))
 		}
 		g.call(fn)
-		for range g.sigs[fn].R {
-			g.op1("drop", 0x1a)
-		}
+		g.consumeAll(g.sigs[fn].R)
 	case "callind":
 		if g.funcTable < 0 {
 			return false
 		}
 		s := g.callIndirect(nil)
-		for range s.R {
-			g.op1("drop", 0x1a)
-		}
+		g.consumeAll(s.R)
 	case "if":
 		g.expr(I32, d)
 		g.open("if", 0x04, nil, nil, false)
@@ -841,8 +906,9 @@ func (g *gen) stmt() (terminated bool) {
 	case "loop":
 		g.loopStmt()
 	case "drop":
-		g.expr(g.valType(false), d)
-		g.op1("drop", 0x1a)
+		dt := g.valType(false)
+		g.expr(dt, d)
+		g.consume(dt)
 	case "bulk":
 		if !g.out.HasMemory || !g.has(FeatBulk) {
 			return false
@@ -978,9 +1044,7 @@ func (g *gen) blockStmt() {
 		}
 	}
 	g.close()
-	for range r {
-		g.op1("drop", 0x1a)
-	}
+	g.consumeAll(r)
 }
 
 // branch emits a br / br_if / br_table to some enclosing label. Returns true if control
@@ -1396,6 +1460,10 @@ func (g *gen) expr(ty byte, depth int) {
 	if g.cfg.CallRich && g.chance(12, "callrichexpr") && g.callExpr(ty) {
 		return
 	}
+	if (ty == I32 || ty == I64) && g.chance(10, "idiom") {
+		g.idiom(ty, depth)
+		return
+	}
 	k := g.intn(100, "expr")
 	switch {
 	case k < 22:
@@ -1592,6 +1660,10 @@ func (g *gen) tableOp(op *Op) { g.tableOpDepth(op, 3) }
 func (g *gen) tableOpDepth(op *Op, depth int) {
 	g.stat(opClass(op))
 	var off uint32
+	zeroSide := -1
+	if op.Prefix == 0 && len(op.Params) == 2 && len(op.Results) == 1 && op.Results[0] == I32 && (op.Params[0] == I32 || op.Params[0] == I64) && op.Params[0] == op.Params[1] && g.chance(15, "cmpzero") {
+		zeroSide = g.intn(2, "zeroside")
+	}
 	for i, p := range op.Params {
 		if i == 0 && (op.Imm == ImmMem || op.Imm == ImmMemLane || op.Imm == ImmAtomic) {
 			if op.Imm == ImmAtomic {
@@ -1603,6 +1675,15 @@ func (g *gen) tableOpDepth(op *Op, depth int) {
 		}
 		if op.Trap && i == len(op.Params)-1 && g.chance(85, "safeop") {
 			g.safeOperand(op, p, depth)
+			continue
+		}
+		if zeroSide == i {
+			// comparisons against zero (on either side) are where back ends special-case
+			if p == I32 {
+				g.i32const(0)
+			} else {
+				g.i64const(0)
+			}
 			continue
 		}
 		g.expr(p, depth)
@@ -1737,6 +1818,148 @@ func (g *gen) helpers(next uint32) {
 		for _, ti := range g.out.Tables {
 			add(fmt.Sprintf("tsize%d", ti.Index), nil, []byte{I32}, wasmenc.NewB().TableSize(ti.Index).Bytes())
 			add(fmt.Sprintf("tnull%d", ti.Index), []byte{I32}, []byte{I32}, wasmenc.NewB().LocalGet(0).TableGet(ti.Index).RefIsNull().Bytes())
+		}
+	}
+}
+
+// idiom emits one of the operand shapes that optimising back ends treat specially (fused
+// compare-with-zero of an AND, scaled-index addressing arithmetic, shifts and rotates by
+// constants incl. counts >= width, multiplication/division by constants, extend/wrap pairs,
+// compare feeding select/eqz, operations whose operand comes straight from a load).
+func (g *gen) idiom(ty byte, depth int) {
+	g.stat("idiom")
+	t64 := ty == I64
+	// opcode helpers for the integer type
+	opc := func(i32op, i64op byte) byte {
+		if t64 {
+			return i64op
+		}
+		return i32op
+	}
+	konst := func(v int64) {
+		if t64 {
+			g.i64const(v)
+		} else {
+			g.i32const(int32(v))
+		}
+	}
+	cmps := [][2]byte{{0x46, 0x51}, {0x47, 0x52}, {0x48, 0x53}, {0x49, 0x54}, {0x4a, 0x55}, {0x4b, 0x56}, {0x4c, 0x57}, {0x4d, 0x58}, {0x4e, 0x59}, {0x4f, 0x5a}}
+	d := depth - 1
+	switch g.intn(9, "idiomkind") {
+	case 0, 1: // (a & b) <cmp> 0  or  0 <cmp> (a & b), used as a condition
+		opT := byte(I32)
+		if g.chance(50, "idiom64") {
+			opT = I64
+		}
+		and, zero := byte(0x71), func() { g.i32const(0) }
+		ci := 0
+		if opT == I64 {
+			and, zero, ci = 0x83, func() { g.i64const(0) }, 1
+		}
+		c := cmps[g.intn(len(cmps), "idiomcmp")][ci]
+		zeroFirst := g.chance(50, "zerofirst")
+		if zeroFirst {
+			zero()
+		}
+		g.expr(opT, d)
+		g.expr(opT, d)
+		g.op1("and", and)
+		if !zeroFirst {
+			zero()
+		}
+		g.op1("cmp", c)
+		// the i32 condition selects between two values of the wanted type (branch or select)
+		if g.chance(50, "idiomif") {
+			g.open("if", 0x04, nil, []byte{ty}, false)
+			g.expr(ty, d)
+			g.f.ind--
+			g.f.emit("else", []byte{0x05})
+			g.f.ind++
+			g.expr(ty, d)
+			g.close()
+		} else {
+			t := g.privateLocal(I32)
+			g.localSet(t)
+			g.expr(ty, d)
+			g.expr(ty, d)
+			g.localGet(t)
+			g.op1("select", 0x1b)
+		}
+	case 2: // a + (b << k), k <= 3 (+ const)
+		g.expr(ty, d)
+		g.expr(ty, d)
+		konst(int64(g.intn(4, "scale")))
+		g.op1("shl", opc(0x74, 0x86))
+		g.op1("add", opc(0x6a, 0x7c))
+		if g.chance(50, "disp") {
+			konst(int64(int32(g.drawI32())))
+			g.op1("add", opc(0x6a, 0x7c))
+		}
+	case 3: // shift / rotate by a constant, counts around and beyond the width
+		g.expr(ty, d)
+		w := int64(32)
+		if t64 {
+			w = 64
+		}
+		konst([]int64{0, 1, 7, w - 1, w, w + 1, 2*w - 1, -1, 255, 256}[g.intn(10, "shcount")])
+		ops := [][2]byte{{0x74, 0x86}, {0x75, 0x87}, {0x76, 0x88}, {0x77, 0x89}, {0x78, 0x8a}}
+		o := ops[g.intn(len(ops), "shop")]
+		g.op1("shift", opc(o[0], o[1]))
+	case 4: // multiply / divide / remainder by a constant
+		g.expr(ty, d)
+		konst([]int64{1, 2, 3, 4, 5, 7, 8, 9, 10, 16, 100, 255, 256, 1 << 16, -1, -2, 1<<31 - 1, -(1 << 31)}[g.intn(18, "mulc")])
+		ops := [][2]byte{{0x6c, 0x7e}, {0x6e, 0x80}, {0x70, 0x82}, {0x6c, 0x7e}}
+		o := ops[g.intn(len(ops), "mulop")]
+		g.op1("mul/div const", opc(o[0], o[1]))
+	case 5: // extend / wrap pairs
+		if t64 {
+			g.expr(I64, d)
+			g.op1("i32.wrap_i64", 0xa7)
+			g.op1("extend", []byte{0xac, 0xad}[g.intn(2, "ext")])
+		} else {
+			g.expr(I32, d)
+			g.op1("extend", []byte{0xac, 0xad}[g.intn(2, "ext")])
+			g.expr(I64, d)
+			g.op1("i64.add", 0x7c)
+			g.op1("i32.wrap_i64", 0xa7)
+		}
+	case 6: // comparison feeding eqz / another comparison
+		ci := 0
+		if t64 {
+			ci = 1
+		}
+		g.expr(ty, d)
+		g.expr(ty, d)
+		g.op1("cmp", cmps[g.intn(len(cmps), "idiomcmp")][ci])
+		if g.chance(60, "eqz") {
+			g.op1("i32.eqz", 0x45)
+		}
+		if t64 {
+			g.op1("i64.extend_i32_u", 0xad)
+		}
+	case 7: // operand straight from a load
+		if !g.out.HasMemory || !g.load(ty) {
+			g.expr(ty, d)
+		}
+		g.expr(ty, d)
+		ops := [][2]byte{{0x6a, 0x7c}, {0x6b, 0x7d}, {0x71, 0x83}, {0x72, 0x84}, {0x73, 0x85}, {0x6c, 0x7e}}
+		o := ops[g.intn(len(ops), "loadop")]
+		g.op1("op", opc(o[0], o[1]))
+	default: // sub from zero / xor with -1 / and with masks
+		g.expr(ty, d)
+		switch g.intn(3, "alg") {
+		case 0:
+			konst(-1)
+			g.op1("xor", opc(0x73, 0x85))
+		case 1:
+			konst([]int64{0xff, 0xffff, 0xffffffff, 0x7fffffff, 1, -2}[g.intn(6, "mask")])
+			g.op1("and", opc(0x71, 0x83))
+		default:
+			t := g.scratch(ty)
+			g.localSet(t)
+			konst(0)
+			g.localGet(t)
+			g.op1("sub", opc(0x6b, 0x7d))
 		}
 	}
 }
